@@ -116,8 +116,33 @@ def completeValue (keys : List String) (v : Val) (s : String) : Res :=
     | [k] => .ok (Val.ofStr k)
     | _ => .traitError                                     -- ValueError → self.error
 
-/-- `trait_base.strx` (trait_base.py:147-153) followed by the checks the four
-`String.validate_*` variants make. `cast .str` is `str(value)`. -/
+/-- The validator variant `String._init` selects (trait_types.py:713-725). -/
+inductive StrVariant where
+  | str | len | regex | all
+  deriving DecidableEq, Repr
+
+def stringInit (minlen : Nat) (maxlen regex : Option Nat) : StrVariant :=
+  match regex with
+  | some _ => if minlen == 0 && maxlen.isNone then .regex else .all
+  | none => if minlen == 0 && maxlen.isNone then .str else .len
+
+def strLenOk (minlen : Nat) (maxlen : Option Nat) (s : String) : Bool :=
+  decide (minlen ≤ s.length) && (match maxlen with | none => true | some m => decide (s.length ≤ m))
+
+def strReOk (E : Env) (regex : Option Nat) (s : String) : Bool :=
+  match regex with | none => true | some k => E.rx k s
+
+/-- The checks of `validate_str` / `validate_len` / `validate_regex` / `validate_all`
+(732-781) on the string `s` that `strx(value)` produced (as value `w`). -/
+def stringRun (E : Env) (minlen : Nat) (maxlen regex : Option Nat) (w : Val) (s : String) : StrVariant → Res
+  | .str => .ok w
+  | .len => if strLenOk minlen maxlen s then .ok w else .traitError
+  | .regex => if strReOk E regex s then .ok w else .traitError
+  | .all => if strLenOk minlen maxlen s && strReOk E regex s then .ok w else .traitError
+
+/-- `String.validate`: `trait_base.strx` (trait_base.py:147-153: str(value) for
+str / int / float / complex instances, TypeError otherwise; `cast .str` is
+`str(value)`), then the selected variant; any exception ends in `self.error`. -/
 def stringValidate (E : Env) (minlen : Nat) (maxlen : Option Nat) (regex : Option Nat) (v : Val) : Res :=
   if Val.isInst .str v || Val.isInst .int v || Val.isInst .float v || Val.isInst .complex v then
     match E.cast .str v with
@@ -125,16 +150,7 @@ def stringValidate (E : Env) (minlen : Nat) (maxlen : Option Nat) (regex : Optio
     | .ok w =>
       match strOf w with
       | none => .traitError
-      | some s =>
-        -- String._init (713-725) selects the variant; each variant checks exactly
-        -- the constraints that are not at their default.
-        let lenOk := decide (minlen ≤ s.length) && (match maxlen with | none => true | some m => decide (s.length ≤ m))
-        let reOk := match regex with | none => true | some k => E.rx k s
-        match regex, (minlen == 0 && maxlen.isNone) with
-        | none, true => .ok w                              -- validate_str
-        | none, false => if lenOk then .ok w else .traitError            -- validate_len
-        | some _, true => if reOk then .ok w else .traitError            -- validate_regex
-        | some _, false => if lenOk && reOk then .ok w else .traitError  -- validate_all
+      | some s => stringRun E minlen maxlen regex w s (stringInit minlen maxlen regex)
   else .traitError
 
 variable (E : Env)
